@@ -181,6 +181,13 @@ def thread_body(p, rng, shared, tid, kind):
     elif rep == 'patch': z3 = bind('patch %s %s %s' % (h3, ranges([(0, d) for d in shape]), h3))
     else: z3 = bind('%s %s %s' % (rep, h3, h3))
     p.add('bp %s' % z3); p.add('obs %s' % o3); p.add('obs %s' % h3)
+    # the SHARED activation object on a private input whose shape differs from thread to thread
+    shp = [tid % 3 + 1, shape[1] + tid % 2]
+    xs = bind('tensorof U 2 %s' % nested(shp, [rng.uniform(-1, 1) for _ in range(prod(shp))]))
+    ys = bind('fwd %s %s' % (a, xs)); p.add('obs %s' % ys)
+    # a private tensor whose blocks cancel catastrophically: summing reducers have ONE defined order
+    cb = bind('tensorof U 2 %s' % nested([4, 2], [1e16, 2.0, 3.0, 1.0, -1e16, 4.0, 5.0, 1.0]))
+    p.add('sum %s' % cb); p.add('mean %s' % cb); sb = bind('sumalong %s 0' % cb); p.add('obs %s' % sb)
     # random constructors concurrently (values are not compared in this mode, shapes are)
     r = bind('randu U 3,2 %s %s' % (f2b(0.0), f2b(1.0))); p.add('nelems %s' % r)
     r = bind('randn T 4 %s %s' % (f2b(0.0), f2b(1.0))); d = nm('d'); p.add('%s = shape %s' % (d, r))
